@@ -49,6 +49,22 @@ CHECKS = [
              "plus the disconnect races under every schedule with <= d deviations.",
      "design_ref": "DESIGN.md §5 C10", "note": ENV_NOTE,
      "technique": "explicit-state BFS over event histories with the implementation as transition function + reference model; deviation-bounded schedule exploration"},
+    {"property_id": "C16", "level": "model_checking",
+     "text": "All 8 combinations of idle/socket/wait-future timeouts (None or a value) x 12 scripts x every stall "
+             "position x stall kind (peer silent, peer not reading with a closed window, data channel never connected) "
+             "plus chatty sessions, in virtual time with zero latency: the observed close time of the server-side "
+             "control socket must equal the timing reference exactly (no earlier than the bound, no later), 425 must "
+             "arrive exactly at verb + wait_future_timeout and the session continue, and the C12 ledger must be clean "
+             "after the release.",
+     "design_ref": "DESIGN.md §5 C16", "note": ENV_NOTE,
+     "technique": "exhaustive enumeration of configurations x stall positions on a virtual-time event loop against a timing reference model"},
+    {"property_id": "C17", "level": "model_checking",
+     "text": "Every merge of the event lists of every ordered pair of 11 scripts (CWD, REST, RNFR, TYPE, PASV state, "
+             "uploads, downloads, ABOR, abrupt cut, re-login) working on disjoint directories is executed on one real "
+             "server; pairs are also fired in the same instant under every schedule with <= 1 deviation; each session's "
+             "transcript, received data and tree effects must equal its solo run.",
+     "design_ref": "DESIGN.md §5 C17", "note": ENV_NOTE,
+     "technique": "exhaustive interleaving enumeration + deviation-bounded stateless schedule exploration, solo run as oracle"},
 ]
 
 _ALL = [f"C{i:02d}" for i in range(1, 21)]
